@@ -92,6 +92,10 @@ fn corpus(tier: Tier) -> Vec<(String, bool)> {
     take("C09", n, &|_| true, false);
     out.push(("@export Pairs = keys : K '=' values : V { ',' keys : K '=' values : V } $ ;\n@string K = 'k' ;\n@string V = 'v' ;\n".into(), true));
     out.push(("@export R = f : K ( f : K g : V ) [ g : V f : K ] ;\n@string K = 'k' ;\n@string V = 'v' ;\n".into(), true));
+    // line endings: CRLF files, and a literal that spans a line break (raw CR LF inside the quotes)
+    out.push(("@export Root = 'a' x:X ;\r\nX = 'x' ;\r\n".into(), false));
+    out.push(("@export Root = 'a\r\nb' x:X ;\r\nX = \"x\ry\" | 'z\n' ;\r\n".into(), true));
+    out.push(("# comment\r\n@export Root = { 'a\r\n' } $ ;\r\n".into(), true));
     // many independent multi-type fields, memoized and exported rules in one grammar: iteration-order
     // nondeterminism would show here with overwhelming probability
     let mut rules = Vec::new();
